@@ -67,7 +67,7 @@ func leaderFinalAttempt(c *Ctx, a *absVariant, rule string) {
 func C08(c *Ctx) {
 	r := c.R
 	r.Technique = "typestate abstract interpretation of the seed-growing loop (position, state store, error list at return = those recorded with the returned result) and of the rule dispatch in the 8 LeftRecursion variants; guard agreement in parseExprWrap"
-	r.Explanation = "Termination and longest match over all operand shapes are behavioural and not decided. Decided: (a) nothing of the final, non-extending growth attempt is retained: on every return of the leader routine the position, the state store and the error list are exactly those recorded when the returned result was accepted, the result is memoised under the start position, and a memo hit restores the stored end; (b) expression memoisation is disabled inside left-recursive rules consistently (same guard at lookup and store, derived from the rule on top of the rule stack); (c) dispatch: leader rules go to the leader routine, other left-recursive rules are evaluated plainly (never through the rule memo), in every LeftRecursion variant; (d) the growth loop continues only when the attempt succeeded and (after the seed) ended strictly beyond the previous end. Equivalence with -optimize-parser is C10."
+	r.Explanation = "Termination and longest match over all operand shapes are behavioural and not decided. Decided: (a) nothing of the final, non-extending growth attempt is retained: on every return of the leader routine the position, the state store and the error list are exactly those recorded when the returned result was accepted, the result is memoised under the start position, and a memo hit restores the stored end; (b) expression memoisation is disabled inside left-recursive rules consistently (same guard at lookup and store, derived from the rule on top of the rule stack); (c) dispatch: leader rules go to the leader routine, other left-recursive rules are evaluated plainly (never through the rule memo), in every LeftRecursion variant; (d) the growth loop continues only when the attempt succeeded and (after the seed) ended strictly beyond the previous end; (e) every left-recursive group gets a leader, a single-rule component counts as a group exactly when the rule references itself (C08-g), and - recorded as finding F19 - the leader is fixed at generation time by name although which rule has to grow the seed depends on where the component is entered (C08-h). Equivalence with -optimize-parser is C10."
 	r.Assumptions = []string{"induction hypothesis on parseRule"}
 	r.Rule("C08-a", "every non-memo return of parseRuleRecursiveLeader has pt = lastResult.end, state store and *p.errs as when lastResult was recorded; returns lastResult.v, lastResult.b; the memo table is total (setMemoized stores on every path, getMemoized returns what was stored), so each growth step replaces the seed; last setMemoized is keyed by the start mark")
 	r.Rule("C08-b", "parseExprWrap (LeftRecursion, not Optimize): isLeftRecursion := p.rstack[top].leftRecursive and both memo guards are `p.memoize && !isLeftRecursion`")
@@ -78,6 +78,8 @@ func C08(c *Ctx) {
 	c08Leaders(c)
 	r.Rule("C08-g", "a component of the first-graph with a single rule is a left-recursive group exactly when the rule references itself: every loop over the components returned by StronglyConnectedComponents that tells components apart by their size also consults the self-loop graph[v][v] (the leader must lie on every cycle, direct ones included)")
 	sccSelfLoops(c, "C08-g")
+	r.Rule("C08-h", "the rule that grows the seed is the one through which a component is entered: when more than one rule lies on every cycle of a component, a leader fixed at generation time (findLeader returns the candidate with the smallest name) is the wrong one for every use that enters the component through another candidate - the outer, non-leader rule then receives the fully grown inner result and cannot extend it")
+	c08StaticLeader(c)
 	r.Rule("C08-f", "the first-invocation graph is read-only for its consumers: no function that receives the graph built by MakeFirstGraph (findLeader, FindCyclesInSCC, reduceGraph, the component search) stores into it or into one of its adjacency sets - ComputeLeftRecursives consults the same graph for every component in turn")
 	firstGraphReadOnly(c, "C08-f")
 	abs := c.allAbs()
@@ -466,4 +468,42 @@ func firstGraphReadOnly(c *Ctx, rule string) {
 		return
 	}
 	r.Check(len(bad) == 0, rule, "G.builder.ComputeLeftRecursives:first-graph-read-only", "", g.Where(cl.Pos()), fmt.Sprintf("%d aliases of the graph followed through the consumers, none is stored into", n), strings.Join(bad, "; "))
+}
+
+// c08StaticLeader (C08-h): findLeader picks, among the rules that lie on every cycle, the one with the smallest name.
+// Which rule has to grow the seed depends on where the component is entered, which differs between uses.
+func c08StaticLeader(c *Ctx) {
+	r := c.R
+	g := c.G()
+	if g == nil {
+		return
+	}
+	bp := g.Pkg("builder")
+	fd := load.FuncDecl(bp, "", "findLeader")
+	if fd == nil || fd.Body == nil {
+		r.Fatal("anchor builder.findLeader not found")
+		return
+	}
+	byName := ""
+	for _, s := range mapRanges(g, []string{"builder"}, nil) {
+		if s.Outer != fd {
+			continue
+		}
+		if class, _ := classifyRange(s.Pkg, s); class == "minimum-by-key" {
+			byName = g.Where(s.Pos)
+		}
+	}
+	if byName == "" {
+		// sorted candidates, first one taken
+		ast.Inspect(fd.Body, func(n ast.Node) bool {
+			if rs, ok := n.(*ast.ReturnStmt); ok && len(rs.Results) >= 1 {
+				if ix, ok := rs.Results[0].(*ast.IndexExpr); ok && nospace(ix.Index) == "0" {
+					byName = g.Where(rs.Pos())
+				}
+			}
+			return true
+		})
+	}
+	r.Check(byName == "", "C08-h", "G.builder.findLeader:leader-among-several-candidates", "", g.Where(fd.Pos()), "no choice among several candidates by name",
+		"the leader of a component is the candidate with the smallest name ("+byName+"), whichever rule the grammar enters the component through: `S <- B !.; B <- A 'x' / 'y'; A <- B / 'z'` enters through B, A is made the leader, and `yx` - which B <- B 'x' / 'z' 'x' / 'y' matches - is rejected")
 }
